@@ -44,7 +44,7 @@ def _case(draw):
         mt = dict(blocks=[list(b) for b in half["blocks"]] + [[i + dup for i in b] for b in half["blocks"]], parent=list(half["parent"]) + [(-1 if q == -1 else q + k) for q in half["parent"]], outliers=[])
     elif draw(st.sampled_from([True, False])):
         mt = draw(gen.st_with_empty_clones(mt))
-    return dict(dup=dup, mtree=mt, G=G, dims=draw(st.sampled_from([1, 2, 3])), values=draw(gen.st_values_spec(regimes=("ties", "moderate", "spiky", "flat"))), sib=draw(st.lists(st.integers(0, 7), min_size=1, max_size=4)))
+    return dict(dup=dup, mtree=mt, G=G, dims=draw(st.sampled_from([1, 2, 3])), values=draw(gen.st_values_spec(regimes=("ties", "moderate", "spiky", "flat", "wide"))), sib=draw(st.lists(st.integers(0, 7), min_size=1, max_size=4)))
 
 
 def strategy(ctx):
